@@ -20,7 +20,7 @@ RULE = ('cases = flat machines of the C01 generator with a DETERMINISTIC env (re
 ASSUMPTIONS = ['conditions are deterministic (the hypothesis of C12)',
                'the exception-routing clause of C12 is tied by correspondence only (no theorem yet)']
 THEOREMS = ['C12_pure', 'C12_iff', 'C12_iff_refuted', 'C12_nonvacuous', 'C12_hsm_pure', 'C12_hsm_iff',
-            'C12_hsm_may_characterisation', 'C12_hsm_nonvacuous', 'C12_any_env', 'C12_hsm_any_env']
+            'C12_hsm_may_characterisation', 'C12_hsm_nonvacuous', 'C12_hsm_iff_total', 'C12_hsm_iff_total_nonvacuous', 'C12_any_env', 'C12_hsm_any_env']
 
 
 def gen(rng, i, tier, force_malformed=None):
